@@ -190,7 +190,12 @@ func (pc *ProviderCache) GetResults(ctx context.Context, pid peer.ID, ctxID, met
 	if ok {
 		override = ctxExtended.override
 		for i, xpinfo := range ctxExtended.providers {
-			xmd := ctxExtended.metadatas[i]
+			// The metadata list may be shorter than the provider list; a
+			// missing entry means no metadata was specified.
+			var xmd []byte
+			if i < len(ctxExtended.metadatas) {
+				xmd = ctxExtended.metadatas[i]
+			}
 			// Skipping the main provider's record if its metadata is nil or is
 			// the same as the one retrieved from the indexer, because such EP
 			// record does not advertise any new protocol.
@@ -219,7 +224,12 @@ func (pc *ProviderCache) GetResults(ctx context.Context, pid peer.ID, ctxID, met
 	// Adding chain-level EPs if such exist
 	extended := rpi.provider.ExtendedProviders
 	for i, xpinfo := range extended.Providers {
-		xmd := extended.Metadatas[i]
+		// The metadata list may be shorter than the provider list; a missing
+		// entry means no metadata was specified.
+		var xmd []byte
+		if i < len(extended.Metadatas) {
+			xmd = extended.Metadatas[i]
+		}
 		// Skipping the main provider's record if its metadata is nil or is the
 		// same as the one retrieved from the indexer, because such EP record
 		// does not advertise any new protocol.
